@@ -13,6 +13,48 @@ object (empty XY linear ring as shell) and on output every empty curve polygon i
 namespace Driver.C09
 open GeosModel GeosModel.WKB Driver.GTreeIO
 
+/-! ### the arc oracle: `Float` transcription of the exception conditions of
+`SimpleCurve::computeEnvelopeInternal(false)` → `CircularArcs::expandEnvelope` → `getCenter`,
+`Orientation::index` (throws iff its third point is not finite), `Quadrant::quadrant` (throws iff its two
+points are equal).  Lean's `Float` is the platform's IEEE binary64, same operations in the same order. -/
+
+def eq2 (a b : Float × Float) : Bool := a.1 == b.1 && a.2 == b.2
+
+def getCenter (p0 p1 p2 : Float × Float) : Float × Float :=
+  if eq2 p0 p2 then (0.5 * (p0.1 + p1.1), 0.5 * (p0.2 + p1.2)) else
+  let ax := p1.1 - p2.1; let ay := p1.2 - p2.2
+  let bx := p2.1 - p0.1; let by' := p2.2 - p0.2
+  let cx := p0.1 - p1.1; let cy := p0.2 - p1.2
+  let d1 := -(bx * cx + by' * cy)
+  let d2 := -(cx * ax + cy * ay)
+  let d3 := -(ax * bx + ay * by')
+  let e1 := d2 * d3; let e2 := d3 * d1; let e3 := d1 * d2
+  let e := e1 + e2 + e3
+  let gx := p0.1 + p1.1 + p2.1; let gy := p0.2 + p1.2 + p2.2
+  let hx := (e1 * p0.1 + e2 * p1.1 + e3 * p2.1) / e
+  let hy := (e1 * p0.2 + e2 * p1.2 + e3 * p2.2) / e
+  (0.5 * (gx - hx), 0.5 * (gy - hy))
+
+def quadrant (c p : Float × Float) : Nat :=
+  if p.1 >= c.1 then (if p.2 >= c.2 then 0 else 3) else (if p.2 >= c.2 then 1 else 2)
+
+def finite2 (p : Float × Float) : Bool := p.1.isFinite && p.2.isFinite
+
+def arcThrows (p0 p1 p2 : Float × Float) : Bool :=
+  let c := getCenter p0 p1 p2
+  if eq2 c p0 || eq2 c p1 then false
+  else if c.1.isNaN then false
+  else if !finite2 p1 then true
+  else if eq2 p2 c then true
+  else if quadrant c p0 == quadrant c p2 then !finite2 p2 else false
+
+def arcsThrow : List (Float × Float) → Bool
+  | p0 :: p1 :: p2 :: rest => arcThrows p0 p1 p2 || arcsThrow (p1 :: p2 :: rest)
+  | _ => false
+
+/-- the oracle handed to the model -/
+def arcF : ArcOracle := fun xy => arcsThrow (xy.map fun p => (Float.ofBits p.1, Float.ofBits p.2))
+
 mutual
   partial def normIn : G → G
     | .curvePolygon [] => .curvePolygon [.linearRing ⟨false, false, []⟩]
@@ -107,11 +149,11 @@ def handle (stream : String) (line : String) : String :=
     match toks with
     | ["B", h] =>
       match parseHexBytes h with
-      | some bs => showRes (read bs)
+      | some bs => showRes (read arcF bs)
       | none => "bad-case"
-    | ["B"] => showRes (read [])
-    | ["H", t] => showRes (readHex t.toList)
-    | ["H"] => showRes (readHex [])
+    | ["B"] => showRes (read arcF [])
+    | ["H", t] => showRes (readHex arcF t.toList)
+    | ["H"] => showRes (readHex arcF [])
     | _ => "bad-case"
   | "wkb-roundtrip" =>
     match parseCase toks with
@@ -120,11 +162,11 @@ def handle (stream : String) (line : String) : String :=
   | "wkb-roundtrip-model" =>
     match parseCase toks with
     | some (c, g) =>
-      match read (write c g) with
+      match read arcF (write c g) with
       | .ok g' =>
         let back := showOut g'
         if write c g' != write c g then back ++ " REWRITE-DIFFERS"
-        else match read (write { c with order := (match c.order with | .le => .be | .be => .le) } g) with
+        else match read arcF (write { c with order := (match c.order with | .le => .be | .be => .le) } g) with
           | .ok g'' => if showOut g'' == back then back else back ++ " OTHER-ORDER-DIFFERS"
           | .error _ => back ++ " OTHER-ORDER-DIFFERS"
       | .error _ => "err"
